@@ -349,7 +349,7 @@ class Rows:
             self.arr[k].append(v)
 
 
-def collect(ck, rows, P, ev, netinfo, source):
+def collect(ck, rows, P, ev, netinfo, source, first=True):
     """Interprets one `adjust` event against the parsed input P: network-level checks (numbering of the
     unknowns), and one record per design-matrix row for the vectorised oracle.  Returns number of rows taken."""
     wit0 = dict(netinfo)
@@ -397,10 +397,11 @@ def collect(ck, rows, P, ev, netinfo, source):
                 i, t, pid, u["constrained"], st), wit0)
         k = "XYZ".index(t)
         a = float(u["approx"])
-        if not abs(a - lin[pid][k]) <= TOL_APPROX:
-            approx_bad = (pid, t, a, lin[pid][k])
-        elif a == lin[pid][k]:
-            exact += 1
+        if first:
+            if not abs(a - lin[pid][k]) <= TOL_APPROX:
+                approx_bad = (pid, t, a, lin[pid][k])
+            elif a == lin[pid][k]:
+                exact += 1
         lin[pid][k] = a
     if approx_bad:
         ck.inconc("linearisation point differs from the coordinates written")
@@ -792,6 +793,9 @@ class Adv:
         for hid in hubs:
             targets = sats[hid] + [h for h in hubs if h != hid]
             self.station(hid, targets, full=True)
+            if rng.uniform() < 0.3:     # a second set of directions on the same station: its own orientation
+                self.station(hid, [str(x) for x in rng.choice(targets, int(rng.integers(1, 4)), replace=False)],
+                             full=True, only_directions=True)
         for hid in hubs:
             for sid in sats[hid]:
                 if rng.uniform() < 0.3:
@@ -873,20 +877,26 @@ class Adv:
         return '<direction to="%s" val="%s" %s />' % (t, self.write_ang(v + mis), sd)
 
     def l_distance(self, sid, t):
-        v = self.value("distance", sid, t) + self.rng.uniform(-0.2, 0.2)
+        d = self.value("distance", sid, t)
+        v = d + self.rng.uniform(-0.2, 0.2)
+        if v <= 0:
+            v = d * self.rng.uniform(0.5, 1.5)
         return '<distance from="%s" to="%s" val="%s" stdev="5.0" />' % (sid, t, _fmt(v))
 
-    def l_slope(self, kind, sid, t, p_dh=0.5):
-        """s-distance / z-angle, with instrument / target heights with probability p_dh; None if the value
-        would not be a valid reading"""
+    def l_slope(self, kind, sid, t, p_dh=0.5, set_fdh=None):
+        """s-distance / z-angle, with instrument / target heights with probability p_dh (set_fdh: the set's
+        implicit instrument height, which an own attribute overrides); None if the value would not be a valid
+        reading"""
         rng = self.rng
-        dh, att = (0.0, 0.0), ""
+        dh, att = (set_fdh or 0.0, 0.0), ""
         if rng.uniform() < p_dh:
             fdh = round(float(rng.uniform(1.2, 1.8)), 3) if rng.uniform() < 0.8 else 0.0
             tdh = round(float(rng.uniform(0.0, 2.5)), 3) if rng.uniform() < 0.8 else 0.0
-            dh = (fdh, tdh)
-            if fdh:
+            if set_fdh is not None and rng.uniform() < 0.5:
+                fdh = set_fdh                  # inherited, not written
+            elif fdh or set_fdh is not None:
                 att += ' from_dh="%s"' % _fmt(fdh)
+            dh = (fdh, tdh)
             if tdh:
                 att += ' to_dh="%s"' % _fmt(tdh)
         v = self.value(kind, sid, t, dh=dh)
@@ -911,35 +921,38 @@ class Adv:
         v = self.value("angle", sid, a, b) + self.ang_misclosure(min(self.dist(sid, a), self.dist(sid, b)))
         return '<angle from="%s" bs="%s" fs="%s" val="%s" stdev="14.0" />' % (sid, a, b, self.write_ang(v))
 
-    def station(self, sid, targets, full):
+    def station(self, sid, targets, full, only_directions=False):
         rng = self.rng
         targets = [t for t in targets if t != sid]
         lines = []
         ori = float(rng.uniform(0, 400))
         sd = 'stdev="%s"' % _fmt(rng.choice([3.0, 10.0, 30.0]))
+        # an instrument height given once for the whole set (manual: <obs from_dh="...">)
+        set_fdh = round(float(rng.uniform(1.2, 1.8)), 3) if (self.dim == 3 and rng.uniform() < 0.25) else None
         # directions: most of a set are consistent with one orientation, so gama's approximate orientation is
         # the intended one and the chosen misclosures appear in the rows
-        dirs = list(targets) if full or len(targets) >= 2 else []
+        dirs = list(targets) if (full or rng.uniform() < 0.7) else []
         for k, t in enumerate(dirs):
             mis = 0.0 if k % 2 == 0 else self.ang_misclosure(self.dist(sid, t))
             lines.append(self.l_direction(sid, t, ori, mis, sd))
-        for t in targets:
+        for t in ([] if only_directions else targets):
             if rng.uniform() < 0.5:
                 lines.append(self.l_distance(sid, t))
             if self.dim == 3:
                 for kind in ("s-distance", "z-angle"):
                     if rng.uniform() < 0.5:
-                        lines.append(self.l_slope(kind, sid, t))
+                        lines.append(self.l_slope(kind, sid, t, set_fdh=set_fdh))
             if rng.uniform() < 0.35:
                 lines.append(self.l_azimuth(sid, t))
-        if len(targets) >= 2:
+        if len(targets) >= 2 and not only_directions:
             for _ in range(max(1, len(targets) // 2)):
                 a, b = [str(x) for x in rng.choice(targets, 2, replace=False)]
                 lines.append(self.l_angle(sid, a, b))
         lines = [l for l in lines if l]
         if lines:
             order = rng.permutation(len(lines)) if rng.uniform() < 0.5 else range(len(lines))
-            self.clusters.append(['<obs from="%s">' % sid] + [lines[int(k)] for k in order] + ["</obs>"])
+            self.clusters.append(['<obs from="%s"%s>' % (sid, ' from_dh="%s"' % _fmt(set_fdh) if set_fdh else "")] +
+                                 [lines[int(k)] for k in order] + ["</obs>"])
 
     def levelling(self, ids):
         rng = self.rng
@@ -1186,15 +1199,13 @@ def run(tier, seed, only=None):
     def work(job):
         fam, i = job
         text, info = gen_text(fam, seed, i)
-        g = xmlout.run_gama_local(text, ck.tmp, "%s%d" % (fam, i), args=["--iterations", "0", "--cov-band", "0"],
-                                  outputs=("xml",), trace=True)
-        ev = None
-        for e in g.trace:
-            if e.get("kind") == "adjust":
-                ev = e
-                break
-        if ev is not None:
-            ev = {k: ev[k] for k in ("y_sign", "m", "n", "rows", "rhs", "unknowns", "obs", "iteration")}
+        # adversarial networks: only the first linearisation (their misclosures are up to half a circle, an
+        # iteration from there is meaningless); realistic ones: every linearisation of the run, the later ones
+        # at the coordinates and orientations gama arrived at itself
+        args = ["--cov-band", "0"] + (["--iterations", "0"] if fam == "adv" else [])
+        g = xmlout.run_gama_local(text, ck.tmp, "%s%d" % (fam, i), args=args, outputs=("xml",), trace=True)
+        ev = [{k: e[k] for k in ("y_sign", "m", "n", "rows", "rhs", "unknowns", "obs", "iteration")}
+              for e in g.trace if e.get("kind") == "adjust"] or None
         tail = (g.out or "")[-300:] if ev is None else None
         xmlerr = g.xml.get("descriptions") if (g.xml and g.xml.get("kind") == "error") else None
         for p in (g.input, g.input[:-4] + ".trace", g.input[:-4] + ".out.xml"):
@@ -1220,14 +1231,19 @@ def run(tier, seed, only=None):
                 if len(ck.counters.get("not adjusted samples", [])) < 3:
                     ck.counters.setdefault("not adjusted samples", []).append(dict(netinfo, tail=tail, xml=xmlerr))
                 continue
-            if ev["iteration"] != 0:
+            if ev[0]["iteration"] != 0:
                 ck.inconc("first event is not the first linearisation")
                 continue
             try:
                 P = parse_gkf(text)
             except Exception as ex:       # the oracle's own reader failing is a harness problem
                 raise runner.HarnessError("oracle reader failed on generated input %s: %s" % (job, ex))
-            collect(ck, rows, P, ev, netinfo, source="gama-local")
+            for k, e in enumerate(ev):
+                if e["iteration"] != k:
+                    ck.inconc("linearisations out of sequence")
+                    break
+                collect(ck, rows, P, e, dict(netinfo, linearisation=k), source="gama-local", first=(k == 0))
+                ck.count("linearisations checked: %s" % ("first" if k == 0 else "later (gama's own coordinates)"), 1)
 
     # ---- monitor B: LocalLinearization asked directly, one observation per network
     cases = []
